@@ -1,0 +1,8 @@
+//go:build !verif
+// +build !verif
+
+package rsec16
+
+func verifWorkerEvent(kind string, worker, workers, dataLength int) {}
+
+func verifApplyEvent(outStart, outEnd, dataStart, dataEnd, dataLength int) {}
